@@ -6,7 +6,7 @@ From LV Require Import Base.Prelude Cfg.Grammar Earley.Spec Recons.Recons Recons
      Recons.ReconsCheck_proofs Recons.Text Recons.Text_proofs Recons.Complete_proofs Recons.Link_proofs Recons.Extra_proofs Recons.Roundtrip_proofs
      Recons.EarleyM Recons.EarleyM_proofs Recons.EarleyM_sel Lex.LexerBase Lex.Lexer Recons.Relex Recons.Relex_proofs
      Recons.Char_proofs Recons.RelexSafe Recons.RelexSafe_proofs Recons.CharSafe_proofs
-     Recons.GenBase Gen.ReconsHoles Recons.Gen_proofs.
+     Recons.GenBase Gen.ReconsHoles Recons.Gen_proofs Recons.Findings_proofs.
 Import ListNotations.
 
 (* core: one node.  For a supported match u of node (Node data cs) - root rule from rules_for_root[data], inner
@@ -469,3 +469,16 @@ Proof.
         (conj skipped_gen (conj build_loop_gen (conj best_never_replaces sort_key_gen))))))).
 Qed.
 Print Assumptions C19_model_conditions_regenerated.
+
+(* F38 at model level: `?x: _l` with three children.  Every class condition but c_single (single_ok_b) holds, the tree is
+   the shape of a derivation, and the Earley tree matcher of the model finds no match for start[x[a a a]]: reconstruction
+   fails.  c_single is therefore necessary in C19_match_exists and the round-trip theorems. *)
+Theorem C19_F38_refuted :
+  closed_b f38_P = true /\ alias_ok_b f38_us f38_P = true /\ uscore_plain_b f38_us f38_P = true /\
+  expand1_uniform_b f38_P = true /\ extra_b f38_us f38_P = true /\
+  single_ok_b f38_us f38_P = false /\
+  wf f38_P f38_d /\ shape f38_us f38_d = f38_tree /\
+  M_earley f38_us f38_P sel_resolve f38_tree = None /\
+  (forall lit fuel, recon lit (M_earley f38_us f38_P sel_resolve) (S fuel) f38_tree = AssertFail).
+Proof. exact F38_refuted. Qed.
+Print Assumptions C19_F38_refuted.
